@@ -659,6 +659,10 @@ func (h *hEnv) execStep(step bson.D) (res bson.D, perr error) {
 			}
 			out = append(out, bson.E{Key: "failed", Value: idx})
 		}
+		if h.scribble && r != nil && r.UpsertedIDs != nil {
+			// the result's map belongs to the caller as well
+			r.UpsertedIDs[-7] = "scribbled"
+		}
 		return finish(out)
 	case "createIndex":
 		name, err := h.coll(ns).Indexes().CreateOne(ctx, indexModel(step, rec))
